@@ -212,6 +212,23 @@ def run(chk):
             marr = [ol(a) for a in v[2]]
             if out[0] != "Ok" or not all(C.all_close(a, b, rtol=1e-9, atol=1e-300) for a, b in zip(out[1], marr)):
                 dis.append(dict(input=case, impl=C.jsonable(out), model=C.jsonable(marr)))
+    # several populations alive at once: each keeps reporting its own formation age (and a population built from a BH mass function none)
+    imf_s = masses.PowerLawIMF([0.1, 0.5, 1.0, 100], [-0.5, -1.3, -2.5], N0=5e5)
+    fehs_ = [-2.0, -1.0, 0.3]
+    with warnings.catch_warnings():
+        warnings.simplefilter("ignore")
+        pops_ = [emf.InitialBHPopulation.from_IMF(imf_s, [3, 3, 10], f_, natal_kicks=False) for f_ in fehs_]
+        first_ages = []
+        for f_ in fehs_:
+            first_ages.append(float(emf.InitialBHPopulation.from_IMF(imf_s, [3, 3, 10], f_, natal_kicks=False).age))
+        p_bhmf = emf.InitialBHPopulation.from_BHMF([5.0, 20.0, 60.0], [-1.0, -2.0], [3, 3], -1.0, N0=1000.0, natal_kicks=False)
+    ages_now = [float(p_.age) for p_ in pops_]
+    if ages_now != first_ages or len(set(ages_now)) != len(ages_now):
+        chk.fail("the population reports the age at which the lightest BH progenitor (+0.1 Msun) leaves the main sequence",
+                 dict(FeH=fehs_, note="several populations built before any age is read"), dict(ages=ages_now, expected=first_ages))
+    if getattr(p_bhmf, "age", None) is not None:
+        chk.fail("the population reports the age at which the lightest BH progenitor (+0.1 Msun) leaves the main sequence",
+                 dict(note="population built directly from a BH mass function has no formation age"), dict(age=float(p_bhmf.age)))
     chk.correspondence("bh_field (1e-9) vs the captured nested _derivs_BHs on arbitrary (t, y)", ncase, dis)
     # ---- from_BHMF ------------------------------------------------------------------------------------
     for _ in range(8 if chk.tier == "quick" else 60):
